@@ -379,8 +379,12 @@ func (o *fnOrigin) RoundTrip(req *http.Request) (*http.Response, error) {
 	g := o.gen[r]
 	o.mu.Unlock()
 	mk := func(status int, h http.Header, body string) *http.Response {
+		cl := int64(len(body))
+		if v == "c" && status == 200 && req.Method == "GET" {
+			cl = -1 // a response of unannounced length (chunked / close-delimited on the wire)
+		}
 		return &http.Response{Status: fmt.Sprintf("%d %s", status, http.StatusText(status)), StatusCode: status, Proto: "HTTP/1.1", ProtoMajor: 1, ProtoMinor: 1,
-			Header: h, Body: io.NopCloser(strings.NewReader(body)), ContentLength: int64(len(body)), Request: req}
+			Header: h, Body: io.NopCloser(strings.NewReader(body)), ContentLength: cl, Request: req}
 	}
 	if req.Method != "GET" {
 		return mk(200, http.Header{"Content-Type": {"text/plain"}}, "ok"), nil
@@ -442,6 +446,12 @@ func TestConcRace(t *testing.T) {
 			go func(w int) {
 				defer wg.Done()
 				g := newG(seed*131+uint64(w), 0xace)
+				var pendingRead func()
+				defer func() {
+					if pendingRead != nil {
+						pendingRead()
+					}
+				}()
 				for i := 0; i < iters; i++ {
 					r := g.intn(4)
 					v := g.pick("a", "b", "c")
@@ -463,28 +473,47 @@ func TestConcRace(t *testing.T) {
 						report("error from RoundTrip: %v", err)
 						continue
 					}
-					body, berr := io.ReadAll(resp.Body)
-					resp.Body.Close()
 					st := resp.Header.Get("X-Httpcache-Status")
 					mu.Lock()
 					counts[method+":"+st]++
 					mu.Unlock()
 					if method != "GET" {
+						io.Copy(io.Discard, resp.Body)
+						resp.Body.Close()
 						continue
 					}
-					var gen int64
-					fmt.Sscan(resp.Header.Get("X-Gen"), &gen)
-					switch {
-					case berr != nil:
-						report("body read error: %v", berr)
-					case resp.StatusCode != 200:
-						report("status %d for GET r%d v=%s (%s)", resp.StatusCode, r, v, st)
-					case resp.Header.Get("X-Res") != fmt.Sprint(r) || resp.Header.Get("X-Var") != v:
-						report("wrong resource or variant: asked r%d v=%s, got r%s v=%s (%s)", r, v, resp.Header.Get("X-Res"), resp.Header.Get("X-Var"), st)
-					case string(body) != fnContent(r, v, gen):
-						report("body does not match its header fields: r%d v=%s gen=%d len=%d (%s)", r, v, gen, len(body), st)
-					case resp.Header.Get("Etag") != fnETag(r, v, gen):
-						report("ETag %s does not match X-Gen %d", resp.Header.Get("Etag"), gen)
+					// the body of a returned response belongs to the caller until it is closed: some are read only after
+					// this goroutine's next call has returned (and while other goroutines' calls run)
+					readAndCheck := func(resp *http.Response, r int, v, st, when string) {
+						body, berr := io.ReadAll(resp.Body)
+						resp.Body.Close()
+						var gen int64
+						fmt.Sscan(resp.Header.Get("X-Gen"), &gen)
+						switch {
+						case berr != nil:
+							report("body read error (%s): %v", when, berr)
+						case resp.StatusCode != 200:
+							report("status %d for GET r%d v=%s (%s)", resp.StatusCode, r, v, st)
+						case resp.Header.Get("X-Res") != fmt.Sprint(r) || resp.Header.Get("X-Var") != v:
+							report("wrong resource or variant: asked r%d v=%s, got r%s v=%s (%s)", r, v, resp.Header.Get("X-Res"), resp.Header.Get("X-Var"), st)
+						case string(body) != fnContent(r, v, gen):
+							report("body does not match its header fields (%s): r%d v=%s gen=%d len=%d (%s)", when, r, v, gen, len(body), st)
+						case resp.Header.Get("Etag") != fnETag(r, v, gen):
+							report("ETag %s does not match X-Gen %d", resp.Header.Get("Etag"), gen)
+						}
+					}
+					if pendingRead != nil {
+						pendingRead()
+						pendingRead = nil
+					}
+					if g.chance(0.3) {
+						hr, hrr, hv, hst := resp, r, v, st
+						pendingRead = func() { readAndCheck(hr, hrr, hv, hst, "read after a later call") }
+						mu.Lock()
+						counts["GET:deferred-body-read"]++
+						mu.Unlock()
+					} else {
+						readAndCheck(resp, r, v, st, "read at once")
 					}
 					// the caller owns the response now: write to it, keep it
 					resp.Header.Set("X-Owner-Mark", fmt.Sprintf("%d-%d", w, i))
